@@ -16,7 +16,7 @@ template<int D, class It> auto it_addr(It const& it) {
 
 // laws for one iterator family [b, e) of view v (n = model size); expected address of position p given by `at(p)`
 template<int D, class It, class At>
-void iter_laws(std::string const& fam, It b, It e, idx n, bool deref_ok, At&& at, std::vector<Bad>& bad) {
+void iter_laws(std::string const& fam, It b, It e, idx n, bool deref_ok, At&& at, std::vector<Bad>& bad, It const* foreign = nullptr) {
 	auto B = [&](std::string const& law, std::string const& d) { bad.push_back(Bad{fam, law, d}); };
 	auto S = [](idx x) { return std::to_string(x); };
 	++g_laws; if(e - b != n) { B("end-begin==size", "end-begin=" + S(e - b) + " size " + S(n)); return; }
@@ -59,6 +59,22 @@ void iter_laws(std::string const& fam, It b, It e, idx n, bool deref_ok, At&& at
 					++g_laws; if(it_addr<D>(at_) != at(p + k)) { B("assigned iterator same address", "p=" + S(p) + " k=" + S(k)); }
 					if(p + k + 1 < n) { ++at_; ++g_laws; if(it_addr<D>(at_) != at(p + k + 1)) { B("assigned iterator advances identically", "p=" + S(p) + " k=" + S(k)); } }
 				}
+				// assignment over an iterator that belonged to ANOTHER view (different shape/strides) and over a value-initialised one
+				for(int src = 0; src < 2; ++src) {
+					if(src == 0 && !foreign) { continue; }
+					It ft = src == 0 ? *foreign : It{};
+					ft = jt;
+					++g_laws; if(!(ft == jt)) { B("iterator assigned over a foreign/default iterator is equal", "p=" + S(p) + " k=" + S(k)); }
+					if(p + k < n && deref_ok) {
+						++g_laws; if(it_addr<D>(ft) != at(p + k)) { B("iterator assigned over a foreign/default iterator: same address", "p=" + S(p) + " k=" + S(k) + (src ? " default" : " foreign")); }
+						if(p + k + 1 < n) {
+							It f2 = ft; ++f2; ++g_laws; if(it_addr<D>(f2) != at(p + k + 1)) { B("iterator assigned over a foreign/default iterator: ++ advances identically", "p=" + S(p) + " k=" + S(k) + (src ? " default" : " foreign")); }
+							It f3 = ft + 1; ++g_laws; if(it_addr<D>(f3) != at(p + k + 1)) { B("iterator assigned over a foreign/default iterator: +1 advances identically", "p=" + S(p) + " k=" + S(k) + (src ? " default" : " foreign")); }
+							if constexpr(D == 1) { ++g_laws; if(std::addressof(ft[1]) != at(p + k + 1)) { B("iterator assigned over a foreign/default iterator: [1]", "p=" + S(p) + " k=" + S(k)); } }
+						}
+						if(p + k >= 1) { It f4 = ft; --f4; ++g_laws; if(it_addr<D>(f4) != at(p + k - 1)) { B("iterator assigned over a foreign/default iterator: -- retreats identically", "p=" + S(p) + " k=" + S(k) + (src ? " default" : " foreign")); } }
+					}
+				}
 				It cp{jt};
 				++g_laws; if(!(cp == jt)) { B("copied iterator equal", ""); }
 				if(p + k < n && deref_ok) { ++g_laws; if(it_addr<D>(cp) != at(p + k)) { B("copied iterator same address", "p=" + S(p) + " k=" + S(k)); } }
@@ -89,8 +105,16 @@ std::vector<Bad> check_iters(V&& v, MView const& m, int const* data) {
 	bool const nonempty = !m.has_empty_dim();
 	// expected address of the p-th position along the leading dimension
 	auto lead = [&](idx p) { return data + m.base + p*m.d[0].stride; };
+	// a differently shaped auxiliary array of the same rank: source of "foreign" iterators of the same static type
+	static std::vector<int> auxbuf(512, 0);
+	std::vector<idx> auxs(static_cast<std::size_t>(D), 2); auxs.back() = 5; if(D >= 2) { auxs.front() = 3; }
+	multi::array_ref<int, D> aux(vo::make_extensions<D>(auxs), auxbuf.data() + 8);
 	mc::cur_phase("begin/end");
-	iter_laws<D>("iterator", v.begin(), v.end(), n, nonempty, lead, bad);
+	{
+		auto fb = aux().begin() + 1; using It = decltype(v.begin());
+		if constexpr(std::is_same_v<It, decltype(fb)>) { iter_laws<D>("iterator", v.begin(), v.end(), n, nonempty, lead, bad, &fb); }
+		else { iter_laws<D>("iterator", v.begin(), v.end(), n, nonempty, lead, bad); }
+	}
 	mc::cur_phase("cbegin/cend");
 	iter_laws<D>("const_iterator", v.cbegin(), v.cend(), n, nonempty, [&](idx p) { return static_cast<int const*>(lead(p)); }, bad);
 	{
@@ -123,9 +147,18 @@ std::vector<Bad> check_iters(V&& v, MView const& m, int const* data) {
 		mc::cur_phase("elements()");
 		auto&& er = v.elements();
 		++g_laws; if(er.size() != N) { bad.push_back(Bad{"elements", "elements().size()==num_elements", std::to_string(er.size()) + " vs " + std::to_string(N)}); }
-		iter_laws<1>("elements", er.begin(), er.end(), N, true, [&](idx k) { return const_cast<int*>(at(k)); }, bad);
+		{
+			auto fe = aux().elements().begin() + 3; using It = decltype(er.begin());
+			if constexpr(std::is_same_v<It, decltype(fe)>) { iter_laws<1>("elements", er.begin(), er.end(), N, true, [&](idx k) { return const_cast<int*>(at(k)); }, bad, &fe); }
+			else { iter_laws<1>("elements", er.begin(), er.end(), N, true, [&](idx k) { return const_cast<int*>(at(k)); }, bad); }
+		}
 		mc::cur_phase("celements");
-		{ auto const& cv = v; auto&& cr = cv.elements(); iter_laws<1>("const-elements", cr.begin(), cr.end(), N, true, at, bad); }
+		{
+			auto const& cv = v; auto&& cr = cv.elements();
+			auto const& caux = aux; auto fe = caux().elements().begin() + 3; using It = decltype(cr.begin());
+			if constexpr(std::is_same_v<It, decltype(fe)>) { iter_laws<1>("const-elements", cr.begin(), cr.end(), N, true, at, bad, &fe); }
+			else { iter_laws<1>("const-elements", cr.begin(), cr.end(), N, true, at, bad); }
+		}
 		mc::cur_phase("elements()[k]");
 		for(idx k = 0; k < N; ++k) { ++g_laws; if(std::addressof(er[k]) != at(k)) { bad.push_back(Bad{"elements", "elements()[k] is k-th canonical element", "k=" + std::to_string(k)}); break; } }
 		if(N > 0) {
